@@ -2,20 +2,35 @@
 
 (a) determinism: the algorithmic layer of spec/Resolver.tla (MC_Resolver: DeterministicVerdict holds on every path
     through ChooseOrder; DeterministicError holds for sorted map iteration and is refuted for Go's map order --
-    the candidate the replay then looks for); Gen_Resolver programs are parsed 50 times each.
-(b) sharing: spec/SharedProgram.tla (MC_SharedProgram: Immutable, NoSharedWrite, NoForeignRead, Equivalent over all
-    interleavings); Gen_SharedProgram interleavings are imposed on real interpreters one VM instruction at a time;
-    Trace_SharedProgram validates recorded sequential and concurrent executions (digest of the Program before/after
-    every Execute, result = result of running alone); thorough: the same recording under the race detector.
+    the candidate the replay then looks for); Gen_Resolver programs are parsed 50 times each.  Errors that the parser
+    COLLECTS before it reports one (Resolver.tla section 4: the table of unused comma lists, walked in any order;
+    CollectDet holds for the lexicographic order on positions and is refuted for `line smaller or column smaller`):
+    sources with up to three independent errors of several kinds on a grid of lines x places (ResolverGen family
+    "collect": every way in which line order and column order agree or disagree) are parsed 200 times each.
+(b) sharing: spec/SharedProgram.tla (MC_SharedProgram: Immutable, NoSharedWrite, NoForeignRead, Equivalent,
+    RegexesAsCompiled over all interleavings of processes that execute the program once or twice, every execution
+    with an interpreter of its own; instructions include the compiled regex literal, the same source compiled at run
+    time, rand and srand; two slips -- state kept in the shared program, an interpreter taken over from the previous
+    execution without its random generator being reset -- are refuted); Gen_SharedProgram interleavings are imposed on
+    real executions (ExecProgram, New+Execute, New+ExecuteContext) one VM instruction at a time;
+    Trace_SharedProgram validates recorded sequential and concurrent executions through every interface (digest of
+    the Program, state of its compiled regexes included, before/after every execution; result = result of a single
+    execution); the recording of the fixed menu is repeated under the race detector (thorough: also random programs).
 """
-import copy, glob, os, re
+import copy, glob, json, os, re, threading
 from vlib import MachineryError
 
 
 def corrupt(case, rnd):
     c = copy.deepcopy(case)
     if c.get('fam') == 'shared':
-        c['expect']['out'][rnd.randrange(len(c['expect']['out']))] += 1
+        out = c['expect']['out']
+        # tokens (values >= 10000: random numbers, the initial seed) may be any number: corrupt a plain value
+        plain = [i for i, v in enumerate(out) if v < 10000]
+        out[rnd.choice(plain)] += 1
+        return c
+    if c.get('fam') == 'collect' and c['verdict'] == 'reject' and rnd.random() < 0.5:
+        c['distinct'] = 2            # "repeated parses report two different errors"
         return c
     c['verdict'] = 'reject' if c['verdict'] == 'accept' else 'accept'
     return c
@@ -32,7 +47,10 @@ def corrupt_event(ev, rnd):
     return None
 
 
-RES = dict(NP1=1, NP2=1, NP3=9, NG=1, MaxMainCalls=1, AllowRev='FALSE', MinArgs=1, NFm=3)
+RES = dict(NP1=1, NP2=1, NP3=9, NG=1, MaxMainCalls=1, AllowRev='FALSE', MinArgs=1, NFm=3, NPf=3, FrLen='FALSE',
+           CLines=3, MaxSites=3)
+KINDS3 = '{"comma", "type", "undef"}'
+KINDS4 = '{"comma", "type", "undef", "args"}'
 
 
 def res(**kw):
@@ -88,46 +106,98 @@ def run(ctx):
     ctx.rule = ('a case is (a) one abstract program exported by TLC from Gen_Resolver (usage universe and programs with '
                 'several independent type errors over 3-6 functions), rendered and parsed 50 times: verdict, error text and '
                 'position, disassembly and compiled tables must be identical (non-trivial when the as-built model has more '
-                'than one body order for it); (b) one complete interleaving of 2-3 interpreters over one shared program '
-                'exported from Gen_SharedProgram and imposed on the real interpreters one VM instruction at a time '
-                '(non-trivial with >= 2 interpreters and a non-empty body); or one recorded trace: a source parsed 50 times, '
-                'then executed by 8 interpreters over one Program sequentially and from 8 goroutines')
+                'than one body order for it); or one source with up to 3 independent errors (unused comma lists, which the '
+                'parser collects in a table before it reports one; type conflicts; undefined functions) on a grid of 3 '
+                'lines x 3 places, parsed 200 times (non-trivial with >= 2 errors); (b) one complete interleaving of 2-3 '
+                'processes, each executing one shared program once or twice (every execution with an interpreter of its '
+                'own, process i through interface ApiOf(i): New+Execute, ExecProgram, New+ExecuteContext) '
+                'exported from Gen_SharedProgram and imposed on the real executions one VM instruction at a time '
+                '(non-trivial with >= 2 executions and a non-empty body); or one recorded trace: a source parsed 50 times, '
+                'then executed 9 times in a row and from 8 goroutines over one Program, cycling through the three interfaces')
     ctx.assumptions += [
         'the compiled program is observed through Program.Disassemble and the exported tables of Program.Compiled '
         '(Begin, Actions, End, Functions, Nums, Strs, Regexes)',
         'immutability is observed through a structural digest of everything reachable from *parser.Program by reflection '
-        '(unexported fields included; a *regexp.Regexp is represented by its source), taken before and after every Execute',
-        'imposed interleavings switch between interpreters at VM-instruction boundaries only (verif step hook); finer '
-        'interleavings are left to the concurrent recording and, in the thorough tier, to the race detector',
-        'the SharedProgram model abstracts the instruction set to set/add/match/call/print over two globals',
+        '(unexported fields included), taken before and after every execution; a *regexp.Regexp contributes what the regexp '
+        'API shows of it (String, NumSubexp, SubexpNames, LiteralPrefix, FindString on probe words over the letters of its '
+        'source -- a|ab against "ab" tells leftmost-longest from leftmost-first) and its own scalar fields (the flag that '
+        'Longest() sets among them), not the matcher program, which is a function of the source',
+        'imposed interleavings switch between executions at VM-instruction boundaries only (verif step hook); finer '
+        'interleavings are left to the concurrent recording and to the race detector',
+        'the SharedProgram model abstracts the instruction set to set/add/match (compiled literal)/rlen (same source '
+        'compiled at run time)/call/print/rand/srand over two globals; random numbers and the seed an execution starts '
+        'with are tokens: the same token must be the same number in every execution of a case (a single execution on a '
+        'Program of its own included), nothing is said about different tokens',
+        'for sources with several errors only determinism is judged (one verdict, one message and position in 200 parses); '
+        'WHICH of the errors is reported is not stated by the property and not compared',
+        'Config.Funcs: documented is that the map given to ParseProgram is the one given to the execution; the recorded '
+        'source "natives-variant" replaces an ENTRY of that one map (same name and type) between two sequential executions '
+        'and expects every execution to call the function that is in the map when it starts',
+        'executions on ONE Interpreter object repeated with Execute are not part of this property (the statement gives '
+        'every execution its own interpreter; reuse is C14)',
     ]
     ctx.build()
     w4 = min(4, ctx.cores)
+    # the race-instrumented harness is built while TLC runs
+    race = {}
+
+    def build_race():
+        try:
+            race['bin'] = ctx.build(race=True, name='vreplay_race')
+        except MachineryError as e:
+            race['err'] = e
+    th = threading.Thread(target=build_race)
+    th.start()
+    skip_model = bool(os.environ.get('VERIF_SKIP_MODEL'))   # development aid for runs against changed code
+    if skip_model:
+        ctx.notes.append('model runs skipped (VERIF_SKIP_MODEL)')
     # ---- 1. models ----
-    # (a) determinism of the inference on every path through ChooseOrder
-    inv_det = 'INVARIANTS InPrecondition ExactInv SoundInv PassBoundInv OrdersOK RunAgrees DeterministicVerdict'
-    for nm, consts in (('multi', res(Family='"multi"', NFm=3, MapOrder='"any"')),
-                       ('usage', res(Family='"usage"', MapOrder='"any"'))):
-        if nm == 'usage' and q:
-            continue         # C16 checks the usage universe; thorough repeats it here with the determinism invariants
-        c = ctx.cfg('MC_Resolver', name=f'MC_Resolver_det_{nm}', constants=consts, drop=['INVARIANTS'], add=inv_det)
-        ctx.tlc('MC_Resolver', c, timeout=1500, heap='8g')
-    # message and position: deterministic when map iteration is sorted (the proposed patch) ...
-    c = ctx.cfg('MC_Resolver', name='MC_Resolver_sorted', constants=res(Family='"multi"', NFm=3, MapOrder='"sorted"'),
-                drop=['INVARIANTS'], add='INVARIANTS ExactInv DeterministicVerdict DeterministicError')
-    ctx.tlc('MC_Resolver', c, timeout=1500)
-    # ... and NOT as built: TLC exhibits two paths with different first errors (a candidate, confirmed or not by replay)
-    c = ctx.cfg('MC_Resolver', name='MC_Resolver_asbuilt', constants=res(Family='"multi"', NFm=3, MapOrder='"any"'),
-                drop=['INVARIANTS'], add='INVARIANTS DeterministicError')
-    expect_refuted(ctx, 'MC_Resolver', c, ('DeterministicError',), timeout=900)
-    # (b) sharing
-    c = ctx.cfg('MC_SharedProgram', name='MC_SharedProgram_ok', constants=dict(NProc=2 if q else 3, MaxLen=2, SharedCache='FALSE'))
-    ctx.tlc('MC_SharedProgram', c, timeout=1500, heap='8g')
-    if not q:
-        c = ctx.cfg('MC_SharedProgram', name='MC_SharedProgram_l3', constants=dict(NProc=2, MaxLen=3, SharedCache='FALSE'))
+    if not skip_model:
+        # (a) determinism of the inference on every path through ChooseOrder
+        inv_det = 'INVARIANTS InPrecondition ExactInv SoundInv PassBoundInv OrdersOK RunAgrees DeterministicVerdict'
+        for nm, consts in (('multi', res(Family='"multi"', NFm=3, MapOrder='"any"')),
+                           ('usage', res(Family='"usage"', MapOrder='"any"'))):
+            if nm == 'usage' and q:
+                continue         # C16 checks the usage universe; thorough repeats it here with the determinism invariants
+            c = ctx.cfg('MC_Resolver', name=f'MC_Resolver_det_{nm}', constants=consts, drop=['INVARIANTS'], add=inv_det)
+            ctx.tlc('MC_Resolver', c, timeout=1500, heap='8g')
+        # message and position: deterministic when map iteration is sorted (the proposed patch) ...
+        c = ctx.cfg('MC_Resolver', name='MC_Resolver_sorted', constants=res(Family='"multi"', NFm=3, MapOrder='"sorted"'),
+                    drop=['INVARIANTS'], add='INVARIANTS ExactInv DeterministicVerdict DeterministicError')
+        ctx.tlc('MC_Resolver', c, timeout=1500)
+        # ... and NOT as built: TLC exhibits two paths with different first errors (a candidate, confirmed or not by replay)
+        c = ctx.cfg('MC_Resolver', name='MC_Resolver_asbuilt', constants=res(Family='"multi"', NFm=3, MapOrder='"any"'),
+                    drop=['INVARIANTS'], add='INVARIANTS DeterministicError')
+        expect_refuted(ctx, 'MC_Resolver', c, ('DeterministicError',), timeout=900)
+        # collected errors: one report whatever the order in which the parser's table is walked, for a total order on
+        # positions -- and not for `line smaller or column smaller`.  (quick: the same property is asserted for every
+        # exported source by Gen_Resolver, and the slip's reports are counted there; see below)
+        if not q:
+            col = res(Family='"collect"', CKinds=KINDS4, CLines=4)
+            c = ctx.cfg('MC_Resolver', name='MC_Resolver_collect', constants=dict(col, CollectRel='"lex"'),
+                        drop=['INVARIANTS'], add='INVARIANTS CollectDet')
+            ctx.tlc('MC_Resolver', c, timeout=1500, heap='8g')
+            c = ctx.cfg('MC_Resolver', name='MC_Resolver_collect_slip', constants=dict(col, CollectRel='"either"'),
+                        drop=['INVARIANTS'], add='INVARIANTS CollectDet')
+            expect_refuted(ctx, 'MC_Resolver', c, ('CollectDet',), timeout=900)
+        # (b) sharing
+        sp = dict(NProc=2, MaxLen=2, MaxRuns=2, SharedCache='FALSE', ReuseInterp='FALSE')
+        # two processes, each executing the program twice (one execution after the other, each with its own interpreter)
+        c = ctx.cfg('MC_SharedProgram', name='MC_SharedProgram_ok', constants=sp)
         ctx.tlc('MC_SharedProgram', c, timeout=1500, heap='8g')
-    c = ctx.cfg('MC_SharedProgram', name='MC_SharedProgram_cache', constants=dict(NProc=2, MaxLen=2, SharedCache='TRUE'))
-    expect_refuted(ctx, 'MC_SharedProgram', c, ('NoSharedWrite', 'Equivalent', 'NoForeignRead'), timeout=900)
+        if not q:
+            c = ctx.cfg('MC_SharedProgram', name='MC_SharedProgram_p3', constants=dict(sp, NProc=3, MaxRuns=1))
+            ctx.tlc('MC_SharedProgram', c, timeout=1500, heap='8g')
+            c = ctx.cfg('MC_SharedProgram', name='MC_SharedProgram_l3', constants=dict(sp, MaxLen=3, MaxRuns=1))
+            ctx.tlc('MC_SharedProgram', c, timeout=1500, heap='8g')
+        # the slips are refuted: state kept in the shared program (memo, regex object switched to leftmost-longest) ...
+        c = ctx.cfg('MC_SharedProgram', name='MC_SharedProgram_cache', constants=dict(sp, MaxRuns=1, SharedCache='TRUE'),
+                    drop=['INVARIANTS'], add='INVARIANTS NoSharedWrite NoForeignRead Equivalent')
+        expect_refuted(ctx, 'MC_SharedProgram', c, ('NoSharedWrite', 'Equivalent', 'NoForeignRead'), timeout=900)
+        # ... and an interpreter taken over from the previous execution with its random generator as it was left
+        c = ctx.cfg('MC_SharedProgram', name='MC_SharedProgram_reuse', constants=dict(sp, MaxRuns=2, MaxLen=1, ReuseInterp='TRUE'),
+                    drop=['INVARIANTS'], add='INVARIANTS Equivalent')
+        expect_refuted(ctx, 'MC_SharedProgram', c, ('Equivalent',), timeout=900)
     # ---- 2. spec -> code ----
     g = ctx.cfg('Gen_Resolver', name='Gen_Resolver_multi3', constants=res(Family='"multi"', NFm=3))
     ctx.tlc('Gen_Resolver', g, capture='cases.ndjson', timeout=900)
@@ -135,16 +205,44 @@ def run(ctx):
     ctx.tlc('Gen_Resolver', g, capture='cases.ndjson', simulate=(250 if q else 1000), depth=12, workers=w4, timeout=1500)
     g = ctx.cfg('Gen_Resolver', name='Gen_Resolver_usage', constants=res(Family='"usage"', NG=1 if q else 2))
     ctx.tlc('Gen_Resolver', g, capture='cases.ndjson', timeout=1500, heap='8g')
+    # sources with several collected errors, line order and column order agreeing and disagreeing
+    g = ctx.cfg('Gen_Resolver', name='Gen_Resolver_collect',
+                constants=res(Family='"collect"', CKinds=KINDS3 if q else KINDS4, CLines=3 if q else 4))
+    ctx.tlc('Gen_Resolver', g, capture='cases.ndjson', timeout=1500, heap='8g')
+    # the exported "collect" cases carry the model's own count of reports over all walks of the parser's table: 1 for
+    # the lexicographic order (asserted in Gen_Resolver), and > 1 somewhere for the slip (the property is not vacuous)
+    ncol = nslip = 0
+    for line in open(ctx.path('cases.ndjson')):
+        if '"fam":"collect"' in line:
+            cc = json.loads(line)
+            ncol += 1
+            nslip += cc.get('slipReports', 0) > 1
+            if cc.get('walks', 0) >= 1 and cc.get('reports') != 1:
+                raise MachineryError(f'model defect: collected errors with {cc.get("reports")} reports: {line[:300]}')
+    ctx.cov['collect_sources'] = ncol
+    ctx.cov['collect_sources_where_the_slip_is_order_dependent'] = nslip
+    if nslip == 0:
+        raise MachineryError('no exported source distinguishes the lexicographic order from the slip: the collect universe is too small')
     if not q:
         big = res(Family='"usage"', NP1=2, NP2=2, NP3=1, NG=2, MaxMainCalls=2, AllowRev='TRUE', MinArgs=0)
         g = ctx.cfg('Gen_Resolver', name='Gen_Resolver_big', constants=big)
         ctx.tlc('Gen_Resolver', g, capture='cases.ndjson', simulate=10000, depth=40, workers=w4, timeout=1500)
-    g = ctx.cfg('Gen_SharedProgram', name='Gen_SharedProgram_2', constants=dict(NProc=2, MaxLen=2, SharedCache='FALSE', Rich='FALSE'))
+    sp = dict(NProc=2, MaxLen=2, MaxRuns=1, SharedCache='FALSE', ReuseInterp='FALSE', Rich='FALSE')
+    g = ctx.cfg('Gen_SharedProgram', name='Gen_SharedProgram_2', constants=sp)
     ctx.tlc('Gen_SharedProgram', g, capture='cases.ndjson', timeout=1500, heap='8g')
-    g = ctx.cfg('Gen_SharedProgram', name='Gen_SharedProgram_sim', constants=dict(NProc=3, MaxLen=3, SharedCache='FALSE', Rich='TRUE'))
-    ctx.tlc('Gen_SharedProgram', g, capture='cases.ndjson', simulate=(500 if q else 20000), depth=40, workers=w4, timeout=1500)
+    # three processes (one per execution interface), two executions each, richer instruction menu
+    g = ctx.cfg('Gen_SharedProgram', name='Gen_SharedProgram_sim', constants=dict(sp, NProc=3, MaxLen=3, MaxRuns=2, Rich='TRUE'))
+    ctx.tlc('Gen_SharedProgram', g, capture='cases.ndjson', simulate=(500 if q else 20000), depth=80, workers=w4, timeout=1500)
     ctx.cov['exhaustive'] = True
     ctx.replay('cases.ndjson', label='gen-c19', min_cases=1000, corrupt=corrupt)
+    # the binding self-test again on the new families alone: sources with several collected errors; processes that
+    # execute the program twice through the three interfaces
+    for label, key in (('gen-c19-collect', '"fam":"collect"'), ('gen-c19-runs2', '"runs":2')):
+        with open(ctx.path(f'cases_{label}.ndjson'), 'w') as f:
+            for line in open(ctx.path('cases.ndjson')):
+                if key in line:
+                    f.write(line)
+        ctx.selftest(ctx.path(f'cases_{label}.ndjson'), 'C19', corrupt, label)
     # ---- 3. code -> spec ----
     ntr = 40 if q else 600
     ctx.harness(['C19', 'record', '-seed', str(ctx.seed), '-n', str(ntr), '-out', ctx.path('trace.ndjson')])
@@ -167,26 +265,31 @@ def run(ctx):
         else:
             what = 'program-modified' if (ev.get('before') != info.get('expected', {}).get('program')
                                           or ev.get('after') != info.get('expected', {}).get('program')) else 'result-differs'
-            src = next((e.get('src') for e in r['trace'] if e.get('op') == 'parse'), None)
-            ctx.add_failure(f'C19/shared/{what}/recorded-{ev.get("phase")}',
-                            f'recorded execution rejected by Trace_SharedProgram at event {r["line"]} (interpreter {ev.get("proc")}, {ev.get("phase")})',
-                            case=None, expected=info.get('expected'), observed={k: ev.get(k) for k in ('before', 'after', 'result')},
-                            program=src)
-    # ---- 4. thorough: the recording again under the race detector (an instrument, not an oracle) ----
-    if not q:
-        rb = ctx.build(race=True, name='vreplay_race')
-        prefix = ctx.path('race')
-        ctx.harness(['C19', 'record', '-seed', str(ctx.seed + 100), '-n', '150', '-out', ctx.path('trace_race.ndjson')],
-                    binary=rb, env={'GORACE': f'log_path={prefix} halt_on_error=0 exitcode=0'}, timeout=3000)
-        reps = race_reports(prefix)
-        ctx.cov['race_reports'] = len(reps)
-        ctx.cov['evaluations'] += 150
-        for text, writers in reps:
-            goawk = [w for w in writers if w.startswith('goawk:')]
-            if not goawk:
-                raise MachineryError('the race detector reported a race whose writing access is not in goawk code '
-                                     f'({writers}); harness defect, not a verdict:\n' + text[:1500])
-            ctx.add_failure(f'C19/race/{goawk[0][6:]}', 'data race: goawk code writes memory shared between interpreters '
-                            'that run over one Program (race detector)', case=None,
-                            expected='no unsynchronised access to shared memory', observed=text)
-        ctx.log(f'race detector: {len(reps)} report(s) over 150 recorded traces')
+            par = next((e for e in r['trace'] if e.get('op') == 'parse'), {})
+            ctx.add_failure(f'C19/shared/{what}/recorded-{ev.get("phase")}-{ev.get("api")}',
+                            f'recorded execution rejected by Trace_SharedProgram at event {r["line"]} (source "{par.get("name")}", '
+                            f'execution {ev.get("proc")}, {ev.get("phase")}, through {ev.get("api")}, Funcs variant {ev.get("variant")})',
+                            case=None, expected=info.get('expected'),
+                            observed={k: ev.get(k) for k in ('api', 'variant', 'before', 'after', 'result')}, program=par.get('src'))
+    # ---- 4. the recording again under the race detector (an instrument, not an oracle): quick = the fixed menu ----
+    th.join()
+    if 'err' in race:
+        raise race['err']
+    nrace = 0 if q else 150
+    prefix = ctx.path('race')
+    ctx.harness(['C19', 'record', '-seed', str(ctx.seed + 100), '-n', str(nrace), '-out', ctx.path('trace_race.ndjson')],
+                binary=race['bin'], env={'GORACE': f'log_path={prefix} halt_on_error=0 exitcode=0'}, timeout=3000)
+    reps = race_reports(prefix)
+    nrec = sum(1 for line in open(ctx.path('trace_race.ndjson')) if '"op":"parse"' in line)
+    ctx.cov['race_reports'] = len(reps)
+    ctx.cov['race_detector_traces'] = nrec
+    ctx.cov['evaluations'] += nrec
+    for text, writers in reps:
+        goawk = [w for w in writers if w.startswith('goawk:')]
+        if not goawk:
+            raise MachineryError('the race detector reported a race whose writing access is not in goawk code '
+                                 f'({writers}); harness defect, not a verdict:\n' + text[:1500])
+        ctx.add_failure(f'C19/race/{goawk[0][6:]}', 'data race: goawk code writes memory shared between executions '
+                        'that run over one Program (race detector)', case=None,
+                        expected='no unsynchronised access to shared memory', observed=text)
+    ctx.log(f'race detector: {len(reps)} report(s) over {nrec} recorded traces')
